@@ -115,6 +115,7 @@ impl World {
         let mut acct0 = LocalAccount::new_account("verif".to_string(), password.clone(), target0).await?;
         let key: AccessKey = password.clone().into();
         acct0.sign_in(&key).await?;
+        let _ = acct0.initialize_search_index().await;
         let account_id = *acct0.account_id();
         // server
         let sdir = tmp.path().join("server");
@@ -149,10 +150,12 @@ impl World {
             {
                 let mut a = w.devices[0].lock().await;
                 a.sign_in(&key).await?;
+                let _ = a.initialize_search_index().await;
             }
             let target = client_target(&dk, backend).await?;
             let mut acct = LocalAccount::new_unauthenticated(account_id, target).await?;
             acct.sign_in(&key).await?;
+            let _ = acct.initialize_search_index().await;
             w.add_device(acct);
         }
         Ok(w)
